@@ -208,3 +208,43 @@ def reaching_defs(g: C.CFG, nid: int, name: str):
             continue
         work.extend(p for p, _l in g.pred[u])
     return out
+
+
+# --------------------------------------------------------------------------- per-call state
+PER_CALL_STATE = {
+    # attribute: (predicate on the assigned value, text, what goes wrong otherwise)
+    "_msg_cache": (lambda v: isinstance(v, ast.Call) and A.call_name(v) in ("deque", "collections.deque") and not v.args,
+                   "deque()", "the 'no checkpoint' marker (None) of an earlier call survives: every later plan is not resumable and a pause aborts it"),
+    "_deferred_pause_requested": (lambda v: isinstance(v, ast.Constant) and v.value is False, "False",
+                                  "a deferred pause requested during the previous call pauses the next plan at its first checkpoint"),
+    "_exception": (lambda v: isinstance(v, ast.Constant) and v.value is None, "None", "the previous call's exception is thrown into the next plan"),
+    "_exit_status": (lambda v: isinstance(v, ast.Constant) and v.value == "success", "'success'", "a plan that completes reports the previous call's exit status"),
+    "_reason": (lambda v: isinstance(v, ast.Constant) and v.value == "", "''", "a plan that completes reports the previous call's reason"),
+    "_interrupted": (lambda v: isinstance(v, ast.Constant) and v.value is False, "False", "a completed call raises RunEngineInterrupted"),
+    "_plan_stack": (lambda v: isinstance(v, ast.Call) and A.call_name(v) in ("deque", "collections.deque") and not v.args, "deque()", "plans of the previous call are still on the stack"),
+    "_response_stack": (lambda v: isinstance(v, ast.Call) and A.call_name(v) in ("deque", "collections.deque") and not v.args, "deque()", "responses of the previous call are delivered to the new plan"),
+}
+
+
+def per_call_reset(ctx, rm, rule: str, attrs):
+    """RunEngine.__call__ re-initialises per-call state unconditionally before the task is built: `_clear_call_cache`
+    assigns the fresh value at its top level (not under a condition, not through a helper that may return early) and
+    `__call__` calls it before `_resume_task`."""
+    from .idioms import cname, where
+
+    f = rm.m("_clear_call_cache")
+    top = A.body(f.node)
+    for attr in attrs:
+        pred, txt, why = PER_CALL_STATE[attr]
+        writes = [s for s in top if isinstance(s, (ast.Assign, ast.AnnAssign)) and any(A.chain(t) == f"self.{attr}" for t in A.targets_of(s))]
+        nested = [s for s in A.walk_stmts(f.node.body) if s not in top and any(A.chain(t) == f"self.{attr}" for t in A.targets_of(s))]
+        ok = len(writes) >= 1 and pred(writes[-1].value) and not nested
+        ctx.ob(rule, cname(f, None, f"self.{attr} = {txt}, unconditionally"), ok,
+               "" if ok else f"self.{attr} is not re-initialised to {txt} at the start of every call: {why}", nontrivial=True, where=where(f, writes[-1] if writes else f.node))
+    call = rm.m("__call__")
+    seq = list(A.walk_stmts(call.node.body))
+    i_reset = next((i for i, s in enumerate(seq) if isinstance(s, ast.Expr) and A.find_calls(s, "self._clear_call_cache")), None)
+    i_task = next((i for i, s in enumerate(seq) if A.find_calls(s, "self._resume_task") and not isinstance(s, (ast.FunctionDef, ast.If, ast.Try, ast.With))), None)
+    ok = i_reset is not None and i_task is not None and i_reset < i_task and seq[i_reset] in call.node.body
+    ctx.ob(rule, cname(call, None, "_clear_call_cache() runs unconditionally before the task is built"), ok,
+           "" if ok else "per-call state is not reset before the plan starts", where=where(call, call.node))
